@@ -158,7 +158,53 @@ def _check(case):
     return fails or None
 
 
+def _fo_cases(tier, seed):
+    for order in itertools.permutations(('corelib', 'app', 'tools')):
+        yield {'roots': list(order)}
+
+
+def _fo_oracle(system, full_name):
+    """the specification of System.find_object (specs/c02.py: found / lookup_fails), written out over the real objects"""
+    direct = system.allobjects.get(full_name)
+    if direct is not None:
+        return direct
+    head = full_name.split('.', 1)[0]
+    root = next((r for r in system.rootobjects if r.name == head), None)
+    if root is None:
+        return None
+    rest = full_name.split('.', 1)[1]
+    got = system.allobjects.get(root.expandName(rest))
+    return got if got is not None else LookupError
+
+
+def _fo_check(case):
+    """System.find_object against its specification on a system with three roots, re-exports in each of them"""
+    srcs = {
+        'corelib': [('corelib', 'from corelib._impl import Engine\n__all__ = ["Engine"]\n', True), ('corelib._impl', 'class Engine:\n    def run(self): pass\nclass Kept: pass\n', False)],
+        'app': [('app', 'from app._x import Widget as W\n__all__ = ["W"]\n', True), ('app._x', 'class Widget:\n    class In: pass\n', False),
+                ('app.use', 'from corelib._impl import Engine\nclass U(Engine): pass\n', False)],
+        'tools': [('tools', 'def t(): pass\n', False)],
+    }
+    mods = [m for r in case['roots'] for m in srcs[r]]
+    system = fixtures.build_system(mods)
+    names = ['corelib', 'corelib.Engine', 'corelib._impl.Engine', 'corelib._impl.Engine.run', 'corelib._impl.Kept', 'corelib._impl.Nope', 'corelib.nope.deeper',
+             'app.W', 'app._x.Widget', 'app._x.Widget.In', 'app._x.Gone', 'app.use.U', 'app.use.Engine', 'tools.t', 'tools.missing', 'tools', 'external', 'external.mod.Name',
+             'os.path', 'corelibx.Engine', 'Engine']
+    fails = []
+    for n in names:
+        want = _fo_oracle(system, n)
+        try:
+            got = system.find_object(n)
+        except LookupError:
+            got = LookupError
+        if got is not want:
+            fails.append({'observed': f'find_object({n!r}) with roots {[r.name for r in system.rootobjects]} -> {got}', 'required': f'{want}', 'class': 'find_object:' + n})
+    return fails or None
+
+
 HARNESS = {
+    f'{M}:System.find_object': {'cases': _fo_cases, 'check': _fo_check,
+        'bound': 'three roots in all 6 orders, a re-export in two of them; 21 names (registered, outdated, unknown under a root, external, without dot)'},
     f'{A}:ModuleVistor._handleReExport': {'cases': _cases, 'check': _check,
         'covers': [f'{A}:ModuleVistor._getCurrentModuleExports', f'{M}:Documentable.reparent', f'{M}:Documentable._handle_reparenting_pre',
                    f'{M}:Documentable._handle_reparenting_post', f'{M}:Documentable.fullName', f'{M}:System.addObject', f'{M}:Function.setup'],
